@@ -509,3 +509,102 @@ Proof.
     by (induction l; cbn; [reflexivity | f_equal; [lia | assumption]]).
   rewrite !M. reflexivity.
 Qed.
+
+(** * The working dtype *)
+From Coq Require Import Permutation.
+
+Lemma dsum_add_comm s a b : dsum_add (dsum_add s a) b = dsum_add (dsum_add s b) a.
+Proof. destruct s as [u i f]; destruct a; destruct b; cbn; f_equal; lia. Qed.
+
+Lemma dsum_fold_perm a b : Permutation a b -> forall s, fold_left dsum_add a s = fold_left dsum_add b s.
+Proof.
+  induction 1; intros s; cbn [fold_left]; auto.
+  - rewrite dsum_add_comm. reflexivity.
+  - etransitivity; eauto.
+Qed.
+
+(** the common type does not depend on the order in which the blocks were inserted *)
+Lemma ba_dtype_perm a b : Permutation a b -> ba_dtype a = ba_dtype b.
+Proof.
+  intros H. destruct a as [|x a]; destruct b as [|y b].
+  - reflexivity.
+  - apply Permutation_nil_cons in H. contradiction.
+  - apply Permutation_sym, Permutation_nil_cons in H. contradiction.
+  - unfold ba_dtype, dsum_of. f_equal. apply dsum_fold_perm. exact H.
+Qed.
+
+(** numpy's array dtypes of the unsigned / signed / floating kinds (float16 is not used) *)
+Definition dt_valid (d : dtype) : Prop :=
+  match d with
+  | DU b | DI b => b = 8 \/ b = 16 \/ b = 32 \/ b = 64
+  | DF b => b = 32 \/ b = 64
+  end.
+
+(** every value of [d] is a value of [r] (24 / 53 bit significands) *)
+Definition dt_holds (d r : dtype) : Prop :=
+  match d, r with
+  | DU a, DU b => a <= b
+  | DU a, DI b => a < b
+  | DI a, DI b => a <= b
+  | DI _, DU _ => False
+  | DU a, DF b | DI a, DF b => (a <= 16 /\ 32 <= b) \/ (a <= 32 /\ 64 <= b)
+  | DF a, DF b => a <= b
+  | DF _, _ => False
+  end.
+
+Definition narrow_int (d : dtype) : Prop :=
+  match d with DU b | DI b => b <= 32 | DF _ => True end.
+
+Definition bits_le (d : dtype) (s : dsum) : Prop :=
+  match d with DU b => b <= s_ub s | DI b => b <= s_sb s | DF b => b <= s_fb s end.
+
+Definition dsum_ok (s : dsum) : Prop :=
+  (s_ub s = 0 \/ s_ub s = 8 \/ s_ub s = 16 \/ s_ub s = 32) /\
+  (s_sb s = 0 \/ s_sb s = 8 \/ s_sb s = 16 \/ s_sb s = 32) /\
+  (s_fb s = 0 \/ s_fb s = 32 \/ s_fb s = 64).
+
+Lemma dsum_add_ok s d : dsum_ok s -> dt_valid d -> narrow_int d -> dsum_ok (dsum_add s d).
+Proof.
+  destruct s as [u i f]. unfold dsum_ok. cbn [s_ub s_sb s_fb]. intros (Hu & Hi & Hf) V N.
+  destruct d as [b | b | b]; cbn in *; (split; [|split]); auto; lia.
+Qed.
+
+Lemma dsum_add_mono s d :
+  s_ub s <= s_ub (dsum_add s d) /\ s_sb s <= s_sb (dsum_add s d) /\ s_fb s <= s_fb (dsum_add s d) /\
+  bits_le d (dsum_add s d).
+Proof. destruct s as [u i f]; destruct d; cbn; lia. Qed.
+
+Lemma dsum_fold_spec l : forall s, dsum_ok s -> Forall dt_valid l -> Forall narrow_int l ->
+  let s' := fold_left dsum_add l s in
+  dsum_ok s' /\ s_ub s <= s_ub s' /\ s_sb s <= s_sb s' /\ s_fb s <= s_fb s' /\
+  (forall d, In d l -> bits_le d s').
+Proof.
+  induction l as [|x l IH]; intros s Hs V N; cbn [fold_left].
+  - cbv zeta. split; [exact Hs|]. split; [lia|]. split; [lia|]. split; [lia|]. intros d [].
+  - inversion V; subst. inversion N; subst.
+    pose proof (dsum_add_mono s x) as (M1 & M2 & M3 & M4).
+    destruct (IH (dsum_add s x) (dsum_add_ok s x Hs H1 H3) H2 H4) as (K & A1 & A2 & A3 & A4).
+    cbv zeta. split; [exact K|]. split; [lia|]. split; [lia|]. split; [lia|].
+    intros d [<- | Hd]; [|apply A4; exact Hd].
+    destruct x; cbn in *; lia.
+Qed.
+
+(** with integer blocks of at most 32 bits, the common type holds every value of every block
+    (so the copy into the working array changes no pixel) *)
+Lemma ba_dtype_holds dts d : Forall dt_valid dts -> Forall narrow_int dts -> In d dts ->
+  dt_holds d (ba_dtype dts).
+Proof.
+  intros V N Hd. destruct dts as [|x l]; [destruct Hd|].
+  unfold ba_dtype, dsum_of.
+  assert (H0 : dsum_ok {| s_ub := 0; s_sb := 0; s_fb := 0 |}) by (unfold dsum_ok; cbn; auto).
+  destruct (dsum_fold_spec (x :: l) _ H0 V N) as ((Hu & Hi & Hf) & _ & _ & _ & A).
+  specialize (A d Hd). rewrite Forall_forall in V, N. specialize (V d Hd). specialize (N d Hd).
+  set (s := fold_left dsum_add (x :: l) _) in *. unfold dsum_result.
+  destruct s as [u i f]. cbn [s_ub s_sb s_fb] in *.
+  destruct (Z.ltb_spec 0 f).
+  - destruct (Z.ltb_spec 16 (Z.max u i)); destruct d; cbn [dt_holds bits_le dt_valid narrow_int s_ub s_sb s_fb] in *; lia.
+  - destruct (Z.eqb_spec i 0); [destruct d; cbn [dt_holds bits_le dt_valid narrow_int s_ub s_sb s_fb] in *; lia|].
+    destruct (Z.eqb_spec u 0); [destruct d; cbn [dt_holds bits_le dt_valid narrow_int s_ub s_sb s_fb] in *; lia|].
+    destruct (Z.ltb_spec u i); [destruct d; cbn [dt_holds bits_le dt_valid narrow_int s_ub s_sb s_fb] in *; lia|].
+    destruct (Z.ltb_spec u 64); destruct d; cbn [dt_holds bits_le dt_valid narrow_int s_ub s_sb s_fb] in *; lia.
+Qed.
